@@ -853,6 +853,17 @@ def check_mesh(m):
     for l, cs in enumerate(adj):
         if len(cs) not in (1, 2):
             return "facet %d has %d adjacent cells" % (l, len(cs))
+    # 3-D: every cell sees each of its faces as a symmetric arrangement of the face's own vertex tuple
+    # (a quadrilateral face listed in a 'twisted' order has the right vertex set but no orientation code)
+    if D == 3:
+        arr = SAMPLER_DOC[(kind, 2)].values()
+        for e, t in enumerate(m.idx[(3, 0)]):
+            for k in range(nfaces(kind, 3, 2)):
+                src = [t[j] for j in FIM[kind][3][2][k]]
+                trg = m.idx[(2, 0)][m.idx[(3, 2)][e][k]]
+                if not any(all(src[j] == trg[p[j]] for j in range(len(src))) for p in arr):
+                    return "cell %d sees its local face %d as %s, which is no symmetric arrangement of face %d = %s" % (
+                        e, k, src, m.idx[(3, 2)][e][k], list(trg))
     return None
 
 
@@ -924,6 +935,28 @@ def cell_volume_and_signs(kind, D, pts):
         if corner:
             signs.add((dj > 0) - (dj < 0))
     return vol, signs
+
+
+def hex_vol12_grandy(p):
+    """the closed form used by the Lean theorem C10.volume_hexahedron (`hexVol12`), FEAT vertex numbering"""
+    def sub(a, b):
+        return tuple(x - y for x, y in zip(a, b))
+
+    def add(a, b):
+        return tuple(x + y for x, y in zip(a, b))
+    return (det([add(sub(p[7], p[1]), sub(p[6], p[0])), sub(p[7], p[2]), sub(p[3], p[0])])
+            + det([sub(p[6], p[0]), add(sub(p[7], p[2]), sub(p[5], p[0])), sub(p[7], p[4])])
+            + det([sub(p[7], p[1]), sub(p[5], p[0]), add(sub(p[7], p[4]), sub(p[3], p[0]))]))
+
+
+def self_check_hex_volume(seed):
+    """`hexVol12` (Lean) equals 12 x the exact integral of the Jacobian determinant (oracle), on random hexahedra"""
+    rng = random.Random(seed)
+    for _ in range(200):
+        pts = [tuple(rng.randint(-50, 50) for _ in range(3)) for _ in range(8)]
+        vol, _ = cell_volume_and_signs(H, 3, pts)        # scaled by 6^3 * 2^6
+        if hex_vol12_grandy(pts) * 216 * 64 != 12 * vol:
+            raise RuntimeError("hexVol12 differs from the exact integral of det J for %s" % (pts,))
 
 
 def bary(pts):
@@ -1167,6 +1200,17 @@ def codes_of(m):
                     oc = orient_code(m.kind, f, src, trg)
                     if oc is not None:
                         keys.add("orient:%s%d:%d%d" % (m.kind, f, oc[0], oc[1]))
+    if m.dim == 3:
+        # (local face, orientation code) histogram of the 3-D cells, split into interior / boundary faces
+        adj = facet_adjacency(m)
+        doc = {v[:2]: code for code, v in SAMPLER_DOC[(m.kind, 2)].items()}
+        for e, t in enumerate(m.idx[(3, 0)]):
+            for k in range(nfaces(m.kind, 3, 2)):
+                q = m.idx[(3, 2)][e][k]
+                src = [t[j] for j in FIM[m.kind][3][2][k]]
+                oc = orient_code(m.kind, 2, src, list(m.idx[(2, 0)][q]))
+                if oc in doc:
+                    keys.add("facecode:%s:face%d:code%d:%s" % (m.kind, k, doc[oc], "interior" if len(adj[q]) == 2 else "boundary"))
     return keys
 
 
@@ -1265,6 +1309,7 @@ def main(argv):
         v = [{"property": PROP, "kind": "harness-build-failure", "detail": err, "failing_input": None,
               "broken": "harness c10 does not compile against the current tree"}]
         return vlib.finish(PROP, args.tier, args.seed, t0, lean, [], [], v, [])
+    self_check_hex_volume(args.seed)
     if args.replay:
         cases = [json.load(open(args.replay))["input"]]
     else:
@@ -1287,6 +1332,13 @@ def main(argv):
             raise RuntimeError("deterministic sweeps no longer cover every relative orientation: %s" % short)
         small = small_scope_cases(args.seed, args.tier)
         cases = corpus + sweep + psweep + small + gen_cases(rng, 800 if args.tier == "quick" else 6000, args.tier)
+    if not args.replay and args.tier == "thorough":
+        want = {"facecode:%s:face%d:code%d:%s" % (k, f, c, w) for k, nf, cs in ((H, 6, range(8)), (S, 4, (0, 1, 2, 4, 5, 6)))
+                for f in range(nf) for c in cs for w in ("interior", "boundary")}
+        got = {k for c in cases if c.startswith("refine") and (" h 3 " in c[:12] or " s 3 " in c[:12]) for k in describe(c)
+               if k.startswith("facecode:")}
+        if want - got:
+            raise RuntimeError("thorough stream misses (local face, code) combinations: %s" % sorted(want - got)[:10])
     st = vlib.Stream("refine", cases, [binary], (None if t1_error else vlib.driver_cmd(PROP)), oracle=oracle, nontrivial=nontrivial,
                      describe=describe, signature=signature, canon=canon, env={"VERIF_CASE_TIMEOUT": "120"})
     rule = ("meshes: segment/triangle/quadrilateral/tetrahedron/hexahedron; structured grids (with holes), Kuhn/diagonal "
